@@ -27,8 +27,20 @@ Qed.
 
 Lemma skipnS_eq : forall {A} n (l : list A), skipnS n l = skipnN n l.
 Proof.
-  intros. unfold skipnS, skipnN, lenN. destruct (N.of_nat (length l) <=? n) eqn:E; [|reflexivity].
-  symmetry. apply skipn_all2. lia.
+  intros A n l. revert n. induction l as [|x r IH]; intros n; cbn [skipnS].
+  - unfold skipnN. rewrite skipn_nil. reflexivity.
+  - destruct (n =? 0) eqn:E.
+    + apply N.eqb_eq in E. subst. reflexivity.
+    + rewrite IH. unfold skipnN. replace (N.to_nat n) with (S (N.to_nat (N.pred n))) by lia. reflexivity.
+Qed.
+
+Lemma firstnS_eq : forall {A} n (l : list A), firstnS n l = firstnN n l.
+Proof.
+  intros A n l. revert n. induction l as [|x r IH]; intros n; cbn [firstnS].
+  - unfold firstnN. rewrite firstn_nil. reflexivity.
+  - destruct (n =? 0) eqn:E.
+    + apply N.eqb_eq in E. subst. reflexivity.
+    + rewrite IH. unfold firstnN. replace (N.to_nat n) with (S (N.to_nat (N.pred n))) by lia. reflexivity.
 Qed.
 
 Lemma name_eqb_eq : forall a b, name_eqb a b = true <-> a = b.
@@ -645,8 +657,8 @@ Proof.
     { rewrite H3, !lenN_app in Hmax. lia. }
     rewrite skipnS_eq, H3, skipnN_app_exact by assumption.
     rewrite varint_roundtrip_proof by assumption. cbn [snd].
-    destruct (p_size p <=? lenN ((d0 :: d') ++ rest)) eqn:E3; [|rewrite lenN_app in E3; lia].
-    rewrite firstnN_app_exact by (symmetry; assumption). reflexivity.
+    cbv zeta. rewrite firstnS_eq, firstnN_app_exact by (symmetry; assumption).
+    rewrite H1, N.eqb_refl. reflexivity.
 Qed.
 
 Lemma nthN_Forall2 : forall {A B} (P : A -> B -> Prop) l1 l2 i, Forall2 P l1 l2 ->
@@ -855,7 +867,7 @@ Proof.
   destruct (p_size p =? 0); [cbn [fst snd]; split; [constructor | discriminate]|].
   destruct (file_seek_start max_off (p_off p)); [|cbn [fst snd]; split; [constructor | discriminate]].
   destruct (read_varint (skipnS n file)) as [[[m k] c]| |] eqn:E.
-  - cbn [fst snd]. split; [constructor; [assumption | constructor]|]. destruct (p_size p <=? lenN c); discriminate.
+  - cbn [fst snd]. split; [constructor; [assumption | constructor]|]. cbv zeta. destruct (lenN (firstnS (p_size p) c) =? p_size p); discriminate.
   - cbn [fst snd]. split; [constructor | discriminate].
   - exfalso. exact (read_varint_no_panic _ E).
 Qed.
